@@ -29,6 +29,11 @@ def sh(cmd, **kw):
     return subprocess.run(cmd, shell=True, capture_output=True, text=True, **kw)
 wt = tempfile.mkdtemp(prefix="seedeval-", dir="/tmp"); os.rmdir(wt)
 evd = tempfile.mkdtemp(prefix="seedev-", dir="/tmp")
+prev_history = None
+try:
+    prev_history = json.load(open(os.path.join(out, "meta.json"))).get("history")
+except Exception:
+    pass
 meta = {"property": prop, "change": int(k), "evaluated_at_repo_head": sh("git -C /repo rev-parse --short HEAD").stdout.strip()}
 try:
     assert sh("git -C /repo worktree add -q --detach %s HEAD" % wt).returncode == 0
@@ -66,6 +71,8 @@ try:
     if os.path.isfile(notes):
         shutil.copy(notes, os.path.join(out, "notes.md"))
     meta["what_it_needs"] = "see notes.md"
+    if prev_history:
+        meta["history"] = prev_history
     meta["ran"] = ["demo without change", "git apply", "repo test suite", "demo with change"] + ["./check %s --tier %s (VERIF_REPO=scratch worktree)" % (c, tier) for c in checks]
     json.dump(meta, open(os.path.join(out, "meta.json"), "w"), indent=1)
     print(json.dumps(meta, indent=1)[:3000])
